@@ -1,6 +1,6 @@
 SPECIFICATION CSpec
 CONSTANTS
   Keys <- MCKeys
-INVARIANTS Refines Durable ReopenPathsAgree NoLiveFreed FreedOnce PureAgrees
+PROPERTIES EmitEdges
 VIEW CView
 CHECK_DEADLOCK FALSE
